@@ -6,8 +6,16 @@ props = [json.loads(l) for l in open(os.path.join(ROOT, "properties.jsonl"))]
 
 TECH = "Rocq (Coq 8.16.1) proof over a hand-written Gallina model + differential lock-step (extracted OCaml model vs the Rust code)"
 CLAIMS = {
+ "C04": ("proof", "UDP/IPv4 listen tables and the receive pipeline as a Coq model: exact-wins, soundness of lookup (never another port or another specific address), rebind refusal, end-to-end payload/endpoints, unbound dropped, order-insensitivity proved for all binding tables; the real stack is tied by trace validation (child-process scenarios, complete event list checked by the extracted validator with a proved soundness lemma) plus an independent Rust oracle. Partial for arrival orders on the real runtime (tokio scheduling, ARP resolution not modelled).",
+         "Coq kernel; datagrams are records (codec round trips are C08); bindings static while datagrams are in flight."),
+ "C05": ("proof", "Link model (tap allocation, MTU test, unicast/broadcast routing, single-server throughput + latency timing) with routing, MTU, MAC-distinctness (induction over attach), exactly-once, latency and throughput bounds proved; every recorded trace of the real Network/Pci (virtual time, exact instants) is checked by the extracted validator (soundness proved). Partial: tokio scheduling and Notify order are only exercised.",
+         "Coq kernel; loss fixed at 0; variable settings only through their bounds."),
+ "C06": ("proof", "ARP protocol model as a labelled transition system: target rule, truthful-table invariant, never-wrong, success after one exchange, bounded failure / no hang, agreement of successful answers proved; agreement of concurrent resolvers proved under no_late_answer and REFUTED in general (recorded known finding c06-failed-cache-race); real stack tied by timed trace validation under paused virtual time. Partial: watch-channel wake-ups not modelled.",
+         "Coq kernel; one tap per machine, one network; wire codec is C08."),
  "C07": ("proof", "Refinement of Message to plain byte lists proved in Coq for every operation, every operation history over a pool (induction) and a frame theorem; model tied to message.rs by pool lock-step comparing all slots after every op, plus a structural no-mutation check of the shared buffers.",
          "Coq kernel; hand transcription of message.rs/chunk.rs/slice_range.rs checked by lock-step on sampled histories; Arc sharing itself is not modelled (structural grep + all-slots comparison)."),
+ "C08": ("proof", "Encode/decode models of all six codecs with round trips both ways, arithmetic RFC 791/768/9293 specifications proved equal to the encoders, all 64 TCP control combinations by lifted finite sweep; lock-step against the Rust codecs and etherparse as the independent implementation. TCP reserved bits are masked by the decoder: recorded known finding (exact class proved).",
+         "Coq kernel; to_be_bytes/shifts modelled arithmetically with characterising lemmas; String::from_utf8 modelled by a UTF-8 validity predicate (lock-stepped)."),
  "C09": ("proof", "Subnet algebra (contains/overlaps/range conversion/CIDR) and longest-prefix-match characterisation proved for all inputs and all add/remove histories; tied to ip_table.rs/subnetting.rs by lock-step with boundary lookups.",
          "Coq kernel; std Ipv4Addr/u32 from_str and BTreeMap are modelled (validated by lock-step only)."),
  "C10": ("proof", "Partition predicate proved for fragment(), pass-through, discard, and closure under arbitrary re-fragmentation chains; the same extracted predicate validates the implementation's fragments.",
@@ -16,8 +24,14 @@ CLAIMS = {
          "Coq kernel; BinaryHeap and FxHashMap modelled (priority-queue lemmas proved for the concrete heap model); the tokio expiry timer is an event at arbitrary times."),
  "C12": ("proof", "Circular comparison primitives proved equal to the mathematical circular order for all pairs < 2^31 apart, mutually consistent and shift-invariant; TCB-level ISN equivariance: paired runs of the real Tcb with shifted ISNs (oracle) and lock-step of the TCB model; equivariance theorem over the model in progress.",
          "Coq kernel; hand model of modular_cmp.rs and tcb.rs tied by lock-step."),
+ "C17": ("proof", "Single-endpoint invariant Inv preserved by every TCB operation for ARBITRARY syntactically valid segments; no-crash for all operation sequences (also at system level incl. forged segments); new data never beyond SND.UNA+SND.WND; unacceptable segments (outside the window, or without SYN/RST in SYN-SENT) leave state/data/receive variables unchanged - all proved on the TCB model, which is lock-stepped against tcb.rs on hostile schedules (dev profile; release profile in the thorough tier).",
+         "Coq kernel; MTU >= 50, text <= 65515 bytes; window judged against [RCV.NXT-1, RCV.NXT+RCV.WND) as tcb.rs does; TcpNet composition mirrors the harness, not tcp.rs."),
+ "C18": ("proof", "One's-complement accumulator proved congruent to the sum mod 65535; emitted IPv4/UDP/TCP checksums verify under RFC 1071 incl. pseudo header and odd lengths; decoders accept iff the field verifies (conforming 0x0000/0xffff included after the fix); every single-bit flip rejected, double flips rejected except exactly the compensating pairs; lock-step in the compute_checksum build against the Rust code and etherparse.",
+         "Coq kernel; second harness build with feature compute_checksum."),
  "C19": ("proof", "NDL parser model (incl. the nom combinators used) with the whole-file round trip proved for tab / 4-space / CRLF renderings of every well-formed description, soundness of acceptance and one reject lemma per structural-error class; parser tied to the code by lock-step on rendered trees and mutants of the repository's files; running a valid description is checked by child-process runs against a reference evaluation (testing only). Values containing `]`, four spaces or CR do not round-trip: recorded known finding.",
          "Coq kernel; nom 7 combinators hand-modelled; error message texts not modelled (class + line only); machine_generator/run_internet not modelled (part 2 partial)."),
+ "C14": ("proof", "Totality (never Panic) of the six decoder models and of the NDL parser model proved for all byte strings / texts; models tied by lock-step on hostile inputs; panic-site inventory makes a new unwrap/expect/unreachable!/assert!/index in the anchored files break the correspondence; part 2 (undecodable frames dropped at their layer, simulation keeps running) by frame injection into a running simulation - trace validation only (partial).",
+         "Coq kernel; unchecked integer arithmetic sites are not inventoried; stack-level drop is testing."),
  "C15": ("proof", "Address-generator specs (block/return/fetch), no-panic and the no-double-allocation history theorem proved for all op sequences; DHCP distinctness proved on a protocol model; generator tied to ip_generator.rs by lock-step; the DHCP protocol model is not yet tied to the code by full-stack runs (partial there).",
          "Coq kernel; stored range set read through Debug; DHCP Notify-based waiting and the UDP/IP stack are not modelled."),
 }
